@@ -829,12 +829,16 @@ def run(ck):
     rng = random.Random(ck.seed)
     hist = {}
     total = 0
+    adapter_answers = []
     for tag, cases in all_cases(rng, ck.tier, M):
         cases = [c for c in cases if c["kind"] != "flux" or c["version"] in impl.flux]
         if not cases:
             continue
         obs, failed = run_stream(ck, impl, tag, cases, hist)
         soft_sacct_note(cases, obs, ck.notes)
+        for c, o in zip(cases, obs):          # what the real adapters answered: input of the engine layer below
+            if c["kind"] in ("slurm", "lsf") and "code" in o:
+                adapter_answers.append((c["jl"], o["code"], o["st"], c["kind"]))
         total += len(cases)
         for c, o in list(zip(cases, obs))[:1]:
             ck.sample({"stream": tag, "case": strip_meta(c), "impl": o})
@@ -862,6 +866,12 @@ def run(ck):
     except Exception:
         import traceback
         ck.mismatch("the flux status-query part of the check could not run to completion", None, traceback.format_exc()[-3000:])
+    try:   # the engine's layer: the adapters' answers through the REAL ExecutionGraph.check_study_status
+        n = __import__("harness.props.c16_engine", fromlist=["run_engine"]).run_engine(ck, adapter_answers)
+        ck.cov["traces_validated_against_impl"] = ck.cov.get("traces_validated_against_impl", 0) + n
+    except Exception:
+        import traceback
+        ck.mismatch("the engine-layer part of the check could not run to completion", None, traceback.format_exc()[-3000:])
     return ck.finish(search=lambda: search(ck, impl, M))
 
 
@@ -886,6 +896,9 @@ def search(ck, impl, M):
 
 def replay(ck, path):
     d = json.load(open(path))
+    E = __import__("harness.props.c16_engine", fromlist=["replay_engine"])
+    if E.is_engine_case(d):
+        return E.replay_engine(ck, d)
     c = d.get("case", d)
     if isinstance(c, dict) and "case" in c and "kind" not in c:
         c = c["case"]
